@@ -3,7 +3,7 @@
 # With VP_OUT_DIR set, evidence / replays go there (soak runs at other seeds must not replace the committed evidence).
 SEED=${1:-1}; TIER=${2:-quick}; shift 2 2>/dev/null
 PROPS=${@:-C01 C02 C03 C04 C05 C06 C07 C08 C09 C10 C11 C12 C13 C14 C15 C16 C17 C18 C19 C20}
-cd /verif
+cd "$(dirname "$(readlink -f "$0")")/.."
 for c in $PROPS; do
   ./check $c --tier $TIER --seed $SEED 2>&1 | grep -E "VIOLATION|KNOWN|signature=|seed=|HARNESS|Error|Traceback" | cut -c1-400
   echo "$c exit=${PIPESTATUS[0]}"
